@@ -1,7 +1,7 @@
 From Coq Require Import NArith List String.
-From PK Require Import Base.Outcome Gen.Types Impl Spec.Frame Syn.Ps2 Check.C05 Enc.
+From PK Require Import Base.Outcome Gen.Types Impl Spec.Frame Syn.Ps2 Check.Ps2M Check.C05 Enc.
 Import ListNotations.
 Local Open Scope N_scope.
-Eval vm_compute in ("cex"%string,
-  map (fun w => ([w], enc_word (Ret (check w)), enc_word (ps_add_word syn_ps2 (Ps2Decoder_mk 0 0) w)))
-      (firstn 20 (cex_C05 syn_ps2 (Ps2Decoder_mk 0 0)))).
+Eval vm_compute in ("cex"%string, ps_at_init syn_ps2 [] (fun s0 =>
+  map (fun w => ([w], enc_word (Ret (check w)), enc_word (ps_add_word syn_ps2 s0 w)))
+      (firstn 20 (cex_C05 syn_ps2 s0)))).
